@@ -767,66 +767,29 @@ def _wl_int(w):
     return None
 
 
-def _classify(c):
-    """Which stages get inputs inside the property's quantifier.  Returns dict with
-    fit: 'valid' | 'short' | 'other';  update: bool;  predict: bool (given earlier stages valid)."""
+def _classify_fit(c):
+    """Is construct + fit given inputs inside the property's quantifier?  'valid' | 'short' | 'other'"""
     s = c["strategy"]
     wl = _wl_int(c["wl"])
     n = len(c["y"])
-    out = {"fit": "other", "update": False, "predict": False}
+    via, step = c.get("via", "make"), c.get("step", 1)
+    if via in ("rf", "rrf") and step != 1:
+        return "other"                  # the deprecated factories refuse step_length != 1
+    if via == "cls" and step < 1:
+        return "other"
     if wl is None or wl < 1 or n == 0:
-        return out
+        return "other"
     req = s != "recursive"
     if req and not _valid_fh(c["fh"]):
-        return out
+        return "other"
     if not req and c["fh"] is not None and not (len(c["fh"]) > 0 and len(set(c["fh"])) == len(c["fh"])):
-        return out
+        return "other"
     if s == "dirrec" and c["X"] is not None:
-        return out
+        return "other"
     hmax = max(c["fh"]) if req else 1
     if n < wl + hmax:
-        out["fit"] = "short"
-        return out
-    out["fit"] = "valid"
-    stored = c["fh"]
-    u0 = _u0(c)
-    if c["upd"] == "no":
-        out["update"] = True
-    elif not (c["t0"] <= u0 <= c["t0"] + n):
-        out["update"] = False          # a block that leaves a gap / starts before the stored data: outside the domain
-    elif c["upd"] in ("up", "uprefit"):
-        # update_predict: needs a stored horizon, no exogenous data, and new data long enough for the default splitter
-        out["update"] = (stored is not None and _valid_fh(stored) and c["X"] is None and c["uX"] is None
-                         and len(c["uy"]) >= wl + max(stored))
-    elif not c["uy"] and c["uX"] is not None:
-        out["update"] = False          # empty batch together with an (empty) X frame: rejected by input validation
-    elif c["upd"] == "upd":
-        out["update"] = True
-    else:
-        out["update"] = stored is not None
-    if not out["update"]:
-        return out
-    fhp = c["fhp"]
-    if fhp is None:
-        eff = stored
-    else:
-        eff = fhp
-        if req and (not _valid_fh(fhp) or sorted(fhp) != sorted(stored)):
-            return out
-    if not _valid_fh(eff):
-        return out
-    if s == "dirrec" and c["Xp"] is not None:
-        return out
-    if s == "recursive":
-        if (c["X"] is None) != (c["Xp"] is None):
-            return out
-        if c["Xp"] is not None:
-            nc = len(c["X"][0]) if c["X"] else 0
-            if len(c["Xp"]) != max(eff) or any(len(r) != nc for r in c["Xp"]):
-                return out
-    out["predict"] = True
-    out["eff"] = sorted(eff)
-    return out
+        return "short"
+    return "valid"
 
 
 def _merge(z, off, block):
@@ -839,6 +802,13 @@ def _merge(z, off, block):
         else:
             z.append(list(row))
     return z
+
+
+def _want_calls(s, J, hs, z, m, wl):
+    """regressor.predict calls one forecast makes (0 when no full finite window ends at the cutoff)"""
+    if m < wl or any(_bad(z[t][0]) for t in range(m - wl, m)):
+        return 0
+    return {"direct": J, "multioutput": 1, "recursive": max(hs), "dirrec": J}[s]
 
 
 def _check_predict(fails, calls, pos, s, sci, wl, z, m, hs, hs_fit, tr, base, Xp, t0, got):
@@ -857,9 +827,9 @@ def _check_predict(fails, calls, pos, s, sci, wl, z, m, hs, hs_fit, tr, base, Xp
             fails.append(("predict:steps-returned", "labels %r, requested steps %r from cutoff %d" % ([l for l, _ in got], hs, cutoff)))
             return None
     val = {l - cutoff: v for l, v in got} if got is not None else None
-    if N < wl or any(_bad(zc[t][0]) for t in range(N - wl, N)):
+    want_calls = _want_calls(s, J, hs, z, m, wl)
+    if want_calls == 0:
         return pos              # no full finite window ends at the cutoff: the statement is silent (code forecasts NaN)
-    want_calls = {"direct": J, "multioutput": 1, "recursive": max(hs), "dirrec": J}[s]
     pc = calls[pos:pos + want_calls]
     if len(pc) != want_calls or any(x["k"] != "predict" for x in pc):
         fails.append(("predict:number-of-regressor-predicts", "expected %d regressor.predict calls for this forecast" % want_calls))
@@ -951,103 +921,187 @@ def _check_predict(fails, calls, pos, s, sci, wl, z, m, hs, hs_fit, tr, base, Xp
     return pos + want_calls
 
 
+def _as_history(c, out):
+    """normalise both case kinds to: calls, fit error, operations, per-operation results"""
+    if c["op"] == "hist":
+        calls, fiterr, results = _parse_hist(out)
+        return calls, fiterr, c["ops"], results
+    calls, res = _parse_run(out)
+    ops = []
+    if c["upd"] in ("upd", "refit"):
+        ops.append({"k": "U", "u0": _u0(c), "uy": c["uy"], "uX": c["uX"], "refit": c["upd"] == "refit"})
+    elif c["upd"] in ("up", "uprefit"):
+        ops.append({"k": "W", "u0": _u0(c), "uy": c["uy"], "Xup": None, "refit": c["upd"] == "uprefit"})
+    ops.append({"k": "P", "fh": c["fhp"], "Xp": c["Xp"]})
+    if "err" in res:
+        if res["stage"] == "fit":
+            return calls, res["err"], ops, []
+        pre = ["ok"] if (res["stage"] == "predict" and len(ops) == 2) else []
+        return calls, None, ops, pre + [("err", res["err"])]          # the history stops at the first error
+    return calls, None, ops, (["ok"] if len(ops) == 2 else []) + [("fc", res["ok"])]
+
+
 def oracle(c, out):
-    """The property text evaluated on what the REAL code did (recorded calls + returned forecast), along the
-    history fit -> [update | update_predict] -> predict.  State carried along: the stored series `z`, the number
-    `m` of stored observations up to the cutoff, the latest round of fitted clones."""
+    """The property text evaluated on what the REAL code did (recorded calls, returned forecasts, errors),
+    along the history  construct -> fit -> operations (update | update_predict | predict; an operation may
+    fail and be followed by others).  State carried along: the stored series `z`, the number `m` of stored
+    observations up to the cutoff, the latest round of fitted clones, the stored horizon.
+    After a failed operation the forecaster must still answer from its true state: in particular a failed
+    update_predict leaves the cutoff where it was."""
     if c["op"] == "swt":
         return _oracle_swt(c, out)
     fails = []
-    calls, res = _parse_run(out)
-    cl = _classify(c)
+    calls, fiterr, ops, results = _as_history(c, out)
     s = c["strategy"]
     sci = _sci_expected(c)
-    errstage = res.get("stage")
-    if cl["fit"] == "other":
+    cf = _classify_fit(c)
+    if cf == "other":
         return fails
-    if cl["fit"] == "short":
-        if errstage != "fit":
+    if cf == "short":
+        if fiterr is None:
             fails.append(("fit:short-series-accepted", "n=%d < window_length + max(fh): no full window has a target, yet fit succeeded" % len(c["y"])))
         return fails
-    if errstage == "fit":
-        fails.append(("fit:valid-input-rejected", "fit raised %s on valid input" % res["err"]))
+    if fiterr is not None:
+        fails.append(("fit:valid-input-rejected", "fit raised %s on valid input (constructed via %s)" % (fiterr, c.get("via", "make"))))
         return fails
     wl = _wl_int(c["wl"])
+    req = s != "recursive"
     hs_fit = [1] if s == "recursive" else sorted(c["fh"])
     J = len(hs_fit) if s in ("direct", "dirrec") else 1
-    pos = 0
+    st = {"pos": 0, "z": _z(c["y"], c["X"]), "tr": None, "base": 0, "stored": c["fh"], "budget": c.get("fail")}
+    t0 = c["t0"]
+    hasX = c["X"] is not None
+    ncx = len(c["X"][0]) if c["X"] else 0
 
-    def fit_round(site, z):
-        nonlocal pos
-        fc = calls[pos:pos + J]
+    def fit_round(site):
+        fc = calls[st["pos"]:st["pos"] + J]
         if len(fc) != J or any(x["k"] != "fit" for x in fc):
             fails.append((site + ":number-of-regressor-fits", "expected %d regressor.fit calls here" % J))
-            return None
-        tr = _check_training(site, fails, fc, z, wl, hs_fit, s, sci)
+            return False
+        tr = _check_training(site, fails, fc, st["z"], wl, hs_fit, s, sci)
         if tr is None:
-            return None
-        base = sum(1 for x in calls[:pos] if x["k"] == "fit")
-        pos += J
-        return tr, base
+            return False
+        st["base"] = sum(1 for x in calls[:st["pos"]] if x["k"] == "fit")
+        st["tr"] = tr
+        st["pos"] += J
+        return True
 
-    z = _z(c["y"], c["X"])
-    r = fit_round("fit", z)
-    if r is None:
+    if not fit_round("fit"):
         return fails
-    tr, base = r
-    m = len(z)
-    t0 = c["t0"]
-    if c["upd"] != "no":
-        if not cl["update"]:
-            return fails
-        if errstage == "update":
-            fails.append(("update:valid-input-rejected", "%s raised %s on valid input" % (
-                "update_predict" if c["upd"] in ("up", "uprefit") else "update", res["err"])))
-            return fails
-        off0 = _u0(c) - t0
-        ublock = _z(c["uy"], c["uX"])
-        refit = c["upd"] in ("refit", "uprefit")
+    st["m"] = len(st["z"])
 
-        def upd_event(off, block):
-            nonlocal z, m, tr, base
-            if block:
-                z = _merge(z, off, block)
-                m = off + len(block)
-            if refit:
-                r2 = fit_round("refit", z)
-                if r2 is None:
-                    return False
-                tr, base = r2
-                m = len(z)
-            return True
+    def upd_event(off, block, refit):
+        if block:
+            st["z"] = _merge(st["z"], off, block)
+            st["m"] = off + len(block)
+        if refit:
+            if not fit_round("refit"):
+                return False
+            st["m"] = len(st["z"])
+        return True
 
-        if c["upd"] in ("upd", "refit"):
-            if not upd_event(off0, ublock):
+    def pred_event(hs, Xp, got):
+        """returns 'ok' | 'fail' (oracle failure recorded) | 'raised' (the scheduled regressor failure interrupts it)"""
+        want = _want_calls(s, J, hs, st["z"], st["m"], wl)
+        b = st["budget"]
+        if b is not None and want > b:
+            pc = calls[st["pos"]:st["pos"] + b]
+            if len(pc) != b or any(x["k"] != "predict" for x in pc):
+                fails.append(("predict:number-of-regressor-predicts", "expected %d regressor.predict calls before the scheduled failure" % b))
+                return "fail"
+            st["pos"] += b
+            st["budget"] = None
+            return "raised"
+        p2 = _check_predict(fails, calls, st["pos"], s, sci, wl, st["z"], st["m"], hs, hs_fit, st["tr"], st["base"], Xp, t0, got)
+        if p2 is None:
+            return "fail"
+        if b is not None:
+            st["budget"] = b - (p2 - st["pos"])
+        st["pos"] = p2
+        return "ok"
+
+    for i, o in enumerate(ops):
+        if i >= len(results):
+            return fails                      # (run cases stop at the first error)
+        r = results[i]
+        iserr = isinstance(r, tuple) and r[0] == "err"
+        n = len(st["z"])
+        if o["k"] == "U":
+            off = o["u0"] - t0
+            if not (0 <= off <= n) or (o["uX"] is not None) != hasX and o["uy"]:
+                return fails                  # outside the domain (gap / X given on one side only)
+            if not o["uy"] and o["uX"] is not None:
+                continue                      # rejected by input validation before anything is stored
+            if o["refit"] and st["stored"] is None:
+                return fails                  # update() without a horizon half-applies and raises: not judged here
+            if iserr:
+                fails.append(("update:valid-input-rejected", "update raised %s on valid input" % r[1]))
+                return fails
+            if not upd_event(off, _z(o["uy"], o["uX"]), o["refit"]):
+                return fails
+        elif o["k"] == "W":
+            off = o["u0"] - t0
+            if not (0 <= off <= n) or hasX:
+                return fails
+            stored = st["stored"]
+            refused = (stored is None or not _valid_fh(stored) or o["Xup"] is not None or not o["uy"]
+                       or len(o["uy"]) < wl + max(stored))
+            if refused:
+                # update_predict must refuse without side effects: the cutoff (m) and the data stay as they are
+                continue
+            saved = st["m"]
+            st["m"] = off                     # cutoff = first new label - 1
+            hs_st = sorted(stored)
+            ublock = _z(o["uy"], None)
+            raised = False
+            for sp in range(0, len(ublock) - max(hs_st) + 1):
+                a = max(0, sp - wl)
+                if not upd_event(off + a, ublock[a:sp], o["refit"]):
+                    return fails
+                ev = pred_event(hs_st, None, None)
+                if ev == "fail":
+                    return fails
+                if ev == "raised":
+                    raised = True
+                    break
+            st["m"] = saved                   # restored, whether update_predict returned or raised
+            if iserr and not raised:
+                fails.append(("update:valid-input-rejected", "update_predict raised %s on valid input" % r[1]))
                 return fails
         else:
-            saved = m
-            m = off0                      # cutoff = first new label - 1
-            hs_st = sorted(c["fh"])
-            L = len(ublock)
-            for sp in range(0, L - max(hs_st) + 1):
-                a = max(0, sp - wl)
-                if not upd_event(off0 + a, ublock[a:sp]):
-                    return fails
-                pos2 = _check_predict(fails, calls, pos, s, sci, wl, z, m, hs_st, hs_fit, tr, base, None, t0, None)
-                if pos2 is None:
-                    return fails
-                pos = pos2
-            m = saved                     # the cutoff is restored, the remembered series has grown
-    if not cl["predict"]:
-        return fails
-    if errstage == "predict":
-        fails.append(("predict:valid-input-rejected", "predict raised %s on valid input" % res["err"]))
-        return fails
-    pos2 = _check_predict(fails, calls, pos, s, sci, wl, z, m, cl["eff"], hs_fit, tr, base, c["Xp"], t0, res["ok"])
-    if pos2 is None:
-        return fails
-    if pos2 != len(calls):
-        fails.append(("history:unexpected-regressor-calls", "%d regressor calls beyond what the history explains" % (len(calls) - pos2)))
+            fhp = o["fh"]
+            stored = st["stored"]
+            if fhp is None:
+                eff = stored
+            elif req:
+                if not _valid_fh(fhp) or stored is None or sorted(fhp) != sorted(stored):
+                    continue                  # a different / malformed horizon is refused, nothing changes
+                eff = fhp
+            else:
+                if not (len(fhp) > 0 and len(set(fhp)) == len(fhp)):
+                    continue
+                st["stored"] = list(fhp)      # the optional-horizon mixin stores it before predicting
+                eff = fhp
+            if not _valid_fh(eff):
+                continue                      # no horizon / in-sample steps: refused
+            if s == "dirrec" and o["Xp"] is not None:
+                continue
+            if s == "recursive":
+                if hasX != (o["Xp"] is not None):
+                    continue
+                if o["Xp"] is not None and (len(o["Xp"]) != max(eff) or any(len(rw) != ncx for rw in o["Xp"])):
+                    return fails              # mis-shaped future X (numpy may broadcast it): the statement is silent
+            hs = sorted(eff)
+            want = _want_calls(s, J, hs, st["z"], st["m"], wl)
+            will_raise = st["budget"] is not None and want > st["budget"]
+            if iserr and not will_raise:
+                fails.append(("predict:valid-input-rejected", "predict raised %s on valid input" % r[1]))
+                return fails
+            ev = pred_event(hs, o["Xp"], None if (will_raise or iserr or r == "ok") else r[1])
+            if ev == "fail":
+                return fails
+    if st["pos"] != len(calls):
+        fails.append(("history:unexpected-regressor-calls", "%d regressor calls beyond what the history explains" % (len(calls) - st["pos"])))
     return fails
 
 
